@@ -77,6 +77,9 @@ fn usage() -> ! {
     std::process::exit(2)
 }
 
+/// the property a `check` run is about (for verdicts raised outside the normal report path)
+pub static CURRENT_ID: std::sync::OnceLock<String> = std::sync::OnceLock::new();
+
 fn main() {
     let args: Vec<String> = std::env::args().collect();
     // glibc per-thread arenas grow and trim with mprotect(); with 16 allocation-heavy workers this
@@ -93,6 +96,7 @@ fn main() {
     match args[1].as_str() {
         "check" => {
             let id = args[2].clone();
+            let _ = CURRENT_ID.set(id.clone());
             let mut tier = match std::env::var("VERIF_TIER").as_deref() {
                 Ok("thorough") => Tier::Thorough,
                 _ => Tier::Quick,
@@ -138,6 +142,12 @@ fn main() {
             });
             let j: serde_json::Value = serde_json::from_str(&txt).expect("replay file is not JSON");
             let id = j["property"].as_str().unwrap_or("").to_string();
+            let _ = CURRENT_ID.set(id.clone());
+            if j["payload"]["kind"] == "setup" {
+                // a precondition of the check failed: it fails again (or not) as soon as the check starts
+                let ctx = Ctx { id: id.clone(), tier: Tier::Quick, seed: 0, start: Instant::now() };
+                std::process::exit(props::run(&ctx));
+            }
             let still = props::replay(&id, &j["payload"]);
             if still {
                 println!("VIOLATION property={} replay={}", id, args[2]);
